@@ -29,6 +29,7 @@ type aChange struct {
 	auths   []types.GrandpaAuthoritiesRaw
 	applied bool
 	dead    bool
+	blocked bool
 	bestFin uint32
 }
 
@@ -82,6 +83,7 @@ func runAuthSet(k *kernel.K) {
 	fin := g
 	salt := byte(0)
 	nextAuth := byte(20)
+	var refusedAuths []uint64   // first authority id of forced changes that had to be refused
 	var pendingNotify []*aBlock // finalised blocks whose ApplyScheduledChanges step has not run yet
 	synctest.Wait()
 
@@ -138,6 +140,7 @@ func runAuthSet(k *kernel.K) {
 			num := p.rb.Number + 1
 			dg := cu.BabeDigest(k.Bool(1, 2, "primary"), 0, uint64(2000+int(salt)))
 			what := ""
+			secondForced := false
 			// what is still pending on this chain
 			var lastSchedEff uint
 			hasForcedPending := false
@@ -146,9 +149,13 @@ func runAuthSet(k *kernel.K) {
 					lastSchedEff = c.effective()
 				}
 			}
+			clearlyPending := false // a forced change on this chain that is pending beyond doubt: not yet due, never blocked
 			for _, c := range m.forced {
 				if !c.dead && !c.applied && anc(c.at, p) {
 					hasForcedPending = true
+					if !c.blocked && c.effective() > num {
+						clearlyPending = true
+					}
 				}
 			}
 			switch c := k.Choose(8, "change"); {
@@ -157,6 +164,15 @@ func runAuthSet(k *kernel.K) {
 				b.sched = &aChange{at: b, delay: uint(k.Choose(4, "delay")), auths: authSet(nextAuth, nextAuth+1, nextAuth+2)}
 				dg.Add(grandpaDigest(types.GrandpaScheduledChange{Auths: b.sched.auths, Delay: uint32(b.sched.delay)}))
 				what = fmt.Sprintf(" +scheduled(delay %d)", b.sched.delay)
+			case c == 4 && clearlyPending && !m.loose && k.Bool(1, 2, "second-forced-change-on-this-fork"):
+				// Substrate refuses a block that announces a forced change while another one is still pending
+				// on the same fork (MultiplePendingForcedAuthoritySetChanges): the node must refuse the digest
+				// and nothing of it may ever take effect
+				nextAuth += 3
+				refusedAuths = append(refusedAuths, uint64(nextAuth))
+				dg.Add(grandpaDigest(types.GrandpaForcedChange{BestFinalizedBlock: uint32(fin.rb.Number), Auths: authSet(nextAuth, nextAuth+1), Delay: uint32(k.Choose(3, "delay"))}))
+				secondForced = true
+				what = " +second-forced(must be refused)"
 			case c == 7 && !hasForcedPending && num > lastSchedEff:
 				nextAuth += 3
 				b.forced = &aChange{at: b, delay: uint(k.Choose(3, "delay")), auths: authSet(nextAuth, nextAuth+1), bestFin: uint32(fin.rb.Number)}
@@ -193,6 +209,11 @@ func runAuthSet(k *kernel.K) {
 			live = append(live, b)
 			if err := dh.HandleDigests(h); err != nil {
 				k.Event("digest-error", "%v", err)
+				if secondForced {
+					k.Probe("second-forced-change-refused")
+				}
+			} else if secondForced {
+				k.Violate("C23", "forced-change", "second-forced-change-on-a-fork-accepted", "block %s announces a forced change while another forced change is pending on the same fork; the digest was accepted", cu.Short(h.Hash()))
 			}
 			if b.sched != nil {
 				m.sched = append(m.sched, b.sched)
@@ -214,6 +235,7 @@ func runAuthSet(k *kernel.K) {
 				}
 				if blocked {
 					k.Probe("forced-change-blocked-by-pending-scheduled")
+					c.blocked = true // Substrate fails the import of this block; what happens to the change afterwards is not determined
 					continue
 				}
 				c.applied = true
